@@ -22,7 +22,8 @@ RULE = ("grammar-based Hypothesis files: rows of drawn numbers rendered in any f
         "newline, for TUM, KITTI, EuRoC (8 or 17 columns, ns stamps) and transform files (.npy, savetxt text, JSON with/without "
         "scale, SE(3)/Sim(3)); malformed files: one defect class injected at a drawn row/column; files written by evo parsed by "
         "the strict reference parser. Non-trivial = well-formed with a comment/BOM/CRLF/non-repr spelling or >= 2 rows, or "
-        "malformed with the defect outside the first row; distinct by SHA-1")
+        "malformed with the defect outside the first row; distinct by SHA-1"
+        ' Round-3 addition: invalid transform files also handed to evo_traj --transform_left/right (+invert, +propagate).')
 ASSUMPTIONS = ["tokens Python's float() accepts beyond the decimal grammar (nan, inf, 1_0, non-ASCII digits), CSV quoting and "
                "bare carriage returns are GREY: neither acceptance nor rejection is judged",
                "EuRoC stamps: within 2 ulp of ns/1e9"]
